@@ -626,6 +626,11 @@ def check_identities(idx: Index, rep: Report) -> None:
                         m2 = re.fullmatch(rf"\({nm} := get_constant_value\(op\.rs([12])\)\) is not None", unparse(t2))
                         if m2 and p2:
                             src = int(m2.group(1))
+                    if src is None and any(p2 and unparse(t2) == f"{nm} is not None" for t2, p2 in facts):
+                        # `rsK = get_constant_value(op.rsK)` bound by a plain assignment, then tested
+                        bs_ = {unparse(b_.value) for b_ in ast.walk(fn) if (isinstance(b_, ast.Assign) and len(b_.targets) == 1 and unparse(b_.targets[0]) == nm) or (isinstance(b_, ast.NamedExpr) and b_.target.id == nm)}
+                        if len(bs_) == 1 and (m3 := re.fullmatch(r"get_constant_value\(op\.rs([12])\)", next(iter(bs_)))):
+                            src = int(m3.group(1))
                     if src is not None:
                         const_reg = (src, int(mm.group(2)))
                     continue
